@@ -112,7 +112,10 @@ class Cylinder(SampleShape):
         u = sc.cross(sc.vector([0, 0, 1]), self.symmetry_line)
         un = sc.norm(u)
         if un >= 1e-10:
-            u *= sc.asin(un) / un
+            # The angle between z and the symmetry line is in [0, pi]; asin(un) alone
+            # would fold axes with a negative z-component back onto the upper hemisphere.
+            angle = sc.atan2(y=un, x=sc.dot(sc.vector([0, 0, 1]), self.symmetry_line))
+            u *= angle / un
             points = sc.spatial.rotations_from_rotvecs(u) * points
 
         # By default the cylinder quadrature center is at the origin.
